@@ -4,7 +4,7 @@ from ._famprop import make
 
 
 def FAMS(tier):
-    base = ["T", "D", "R", "O", "K", "C", "V", "M", "U", "G", "CG", "H", "F", "N", "X"]
+    base = ["T", "D", "R", "O", "K", "C", "V", "M", "U", "G", "CG", "H", "DF", "F", "N", "X"]
     return base if tier == "quick" else base + ["E", "S"]
 
 
